@@ -162,6 +162,19 @@ def parseHandle (s : String) : Nat × Nat :=
   | [a, b] => (natOr a, natOr b)
   | _ => (0, 0)
 
+/-- `ckpt` / `cckpt`: read the implementation's checkpoint document and validate it against the instance's map -/
+def doCkpt (st : St) (id cid : String) (hint : List String) : St × String :=
+    match findInst st (natOr id), hint with
+    | some i, ["ckpt", levels, wal] =>
+      let c := parseCkpt levels wal
+      match ckptMismatch i c with
+      | some k => (st, "bad-ckpt " ++ toHex k)
+      | none =>
+        if i.fresh && !inFamily i.range c then (st, "ckpt-outside-theorem-family") else
+        ({ st with saved := ⟨i.id, natOr cid, i.range, c, i.spec⟩ :: st.saved }, joinWith " " hint)
+    | some _, _ => (st, "ckpt-unreadable")
+    | none, _ => (st, "no-instance")
+
 def step (st : St) (ws : List String) : St × String :=
   let (op, hint) := splitHint ws
   match op with
@@ -183,17 +196,32 @@ def step (st : St) (ws : List String) : St × String :=
     | some i => (setInst st { i with s := write i.s (hexOr k) true [], spec := ⟨hexOr k, 0, true, []⟩ :: i.spec }, "ok")
     | none => (st, "no-instance")
   | ["settle", id] => (st, if (findInst st (natOr id)).isSome then "ok" else "no-instance")
-  | ["ckpt", id, cid] =>
-    match findInst st (natOr id), hint with
-    | some i, ["ckpt", levels, wal] =>
-      let c := parseCkpt levels wal
-      match ckptMismatch i c with
-      | some k => (st, "bad-ckpt " ++ toHex k)
-      | none =>
-        if i.fresh && !inFamily i.range c then (st, "ckpt-outside-theorem-family") else
-        ({ st with saved := ⟨i.id, natOr cid, i.range, c, i.spec⟩ :: st.saved }, joinWith " " hint)
-    | some _, _ => (st, "ckpt-unreadable")
-    | none, _ => (st, "no-instance")
+  | ["cnew", first, kgc, m] =>
+    -- M real operators deployed together: operator j owns `ranges kgc m`[j] (Operator.HandleDeploy, C05)
+    let rs := KeySpace.ranges (natOr kgc) (natOr m)
+    let st' := (List.range rs.length).foldl (fun st j =>
+      setInst st ⟨natOr first + j, rs.getD j ⟨0, 0⟩, {}, [], true, none⟩) st
+    (st', joinWith ";" (rs.map fun r => s!"{r.start},{r.stop}"))
+  | ["rot", id] => (st, if (findInst st (natOr id)).isSome then "ok" else "no-instance")
+  | ["cdeploy", first, kgc, n, cid, acks] =>
+    -- real Assembly.Deploy: AssignRanges over the recorded (acknowledgement-ordered) checkpoint ranges, sliceu.Pick,
+    -- Operator.HandleDeploy = dkv.Open of the picked handles in that order with the operator's ownership
+    let srcIds := parseNats acks
+    let found := srcIds.filterMap fun a => st.saved.find? (fun s => s.inst == a && s.cid == natOr cid)
+    if found.length != srcIds.length then (st, "no-ack") else
+    let to := KeySpace.ranges (natOr kgc) (natOr n)
+    let a := assignRanges to (found.map (·.range))
+    let st' := (List.range to.length).foldl (fun st i =>
+      let r := to.getD i ⟨0, 0⟩
+      let own := Keys.ownsKey r
+      let hs := Rescale.pick found (a.getD i [])
+      if hs.isEmpty then setInst st ⟨natOr first + i, r, {}, [], true, none⟩ else
+      let s := openDB own (hs.map (·.ck))
+      let spec := hs.flatMap fun sv => sv.spec.filter (fun e => own e.key)
+      setInst st ⟨natOr first + i, r, s, spec, false, kfSituation (hs.map fun sv => (sv.range, sv.ck)) s⟩) st
+    (st', showAssign a)
+  | ["ckpt", id, cid] => doCkpt st id cid hint
+  | ["cckpt", id, cid] => doCkpt st id cid hint
   | ["open", id, lo, hi, _, _, hs] =>
     let r : KGRange := ⟨natOr lo, natOr hi⟩
     let own := Keys.ownsKey r
@@ -203,6 +231,21 @@ def step (st : St) (ws : List String) : St × String :=
     let s := openDB own (found.map (·.ck))
     let spec := found.flatMap fun sv => sv.spec.filter (fun e => own e.key)
     (setInst st ⟨natOr id, r, s, spec, false, kfSituation (found.map fun sv => (sv.range, sv.ck)) s⟩, "ok")
+  | ["leak", id, _, hs] =>
+    -- next checkpoint of the restored instance = its memtable (WAL) + level list: entries it does not own and that no
+    -- source table held (`seq_above_loaded`: the replay only admits owned keys)
+    match findInst st (natOr id) with
+    | some i =>
+      let handles := (hs.splitOn ",").map parseHandle
+      let found := handles.filterMap fun (a, b) => st.saved.find? (fun s => s.inst == a && s.cid == b)
+      if found.length != handles.length then (st, "no-handle") else
+      let tri := fun (e : Entry) => (e.key, e.del, e.val)
+      let inherited := found.flatMap fun sv => sv.ck.levels.flatten.flatMap fun t => t.run.map tri
+      let mine := (i.s.mems.flatten ++ i.s.levels.flatten.flatMap (·.run)).map tri
+      let extra := (mine.filter fun x => !Keys.ownsKey i.range x.1 && !inherited.contains x).eraseDups
+      (st, if extra.isEmpty then "none" else
+        joinWith "," (extra.map fun x => toHex x.1 ++ ":" ++ (if x.2.1 then "1" else "0") ++ ":" ++ toHex x.2.2))
+    | none => (st, "no-instance")
   | ["seq", id] =>
     match findInst st (natOr id) with
     | some i => (st, s!"seq={i.s.seq}")
